@@ -184,7 +184,10 @@ def extra(local, sc, cfg, sr, hev, wire, out):
 def run(tier, seed, model_ok=True):
     res = C.Result()
     res.rule = ("seeded multi-epoch scenarios (ranks arriving at barriers at very different times, handlers that keep spawning work, pre-barrier callbacks registered from "
-                "main and from handlers, a trailing batch before the destructor's barrier) x layouts x routings x capacity x policy (racer/late/...); distinct = (config, shape)")
+                "main and from handlers, a trailing batch before the destructor's barrier; a third of them with barriers of a SECOND ygm::comm of the same process between the epochs) "
+                "x layouts x routings x capacity x policy (racer/late/...); distinct = (config, shape). Directed: the classic single-round counter-example schedule on 3 ranks, "
+                "sampled (120 / 1500 schedules), explored by single deviations from base schedules, and FORCED with simmpi gates + a delivery hold (32 / 400 runs, half of them "
+                "after a barrier with totals (1,1) on a second communicator)")
     res.assumptions = ["MPI_Iallreduce semantics assumed", "schedules sampled by seeded policies"]
     binary, err = C.build_harness("traffic")
     if binary is None:
